@@ -287,7 +287,20 @@ def greedy_run(case):
     rY[0, 0] = 1
     rnl, rnc = 1, 1
     diverged = False
+    # reference list of explorable leaves: a leaf may be split iff it holds >= min_samples_split samples and lies above max_depth
+    mss = params.get("min_samples_split", 2)
+    mdepth = params.get("max_depth") or n
+    leaf_depth = {0: 0}
+
+    def explorable():
+        return sorted(l for l, dep in leaf_depth.items() if dep < mdepth and int(rZ[l].sum()) >= mss)
     for (leaves, Y, Z, nc, K_max, nl, ml, feats, s) in calls:
+        if not diverged and sorted(int(l) for l in leaves) != explorable():
+            vs.append(violation("explorable_leaves_differ_from_the_structural_limits",
+                                dict(ctx, call_index=stats["calls"], passed=sorted(int(l) for l in leaves), expected=explorable(),
+                                     leaf_sizes={int(l): int(rZ[l].sum()) for l in leaf_depth}, leaf_depths=dict(leaf_depth)),
+                                n_clusters=nc, K_max=K_max, shadow=False))
+            diverged = True
         if not diverged and not (nl == rnl and nc == rnc and np.array_equal(Y, rY) and np.array_equal(Z, rZ)
                                  and K_max == params.get("max_clusters", 3) and ml == params.get("min_samples_leaf", 1)):
             diverged = True
@@ -295,6 +308,9 @@ def greedy_run(case):
                                 "n_leaves": nl, "n_clusters": nc}, expected={"Y": rY[:, :rnl], "Z": rZ[:rnl], "n_leaves": rnl, "n_clusters": rnc}),
                                 n_clusters=nc, K_max=K_max, shadow=False))
         if s["leaf"] >= 0 and s["gain"] > 0 and not diverged and rnl < max_leaves_p:
+            dep = leaf_depth[s["leaf"]]
+            leaf_depth[s["leaf"]] = dep + 1
+            leaf_depth[rnl] = dep + 1
             rY, rZ, rnl, rnc = ref.apply_split(rY, rZ, rnl, rnc, X, s)
         _, alts, v = check_call(Kmat, X, Y, Z, nl, nc, K_max, ml, list(leaves), list(feats), ctx)
         vs.extend(v)
@@ -304,6 +320,12 @@ def greedy_run(case):
         if sum(1 for a in alts if a["gain"] > 1e-9) >= 2:
             nontrivial += 1
     if not diverged:
+        # stop reason: the loop may only end on a refused split (gain <= 0), on max_leaves, or with nothing left to explore
+        last_gain = calls[-1][8]["gain"] if calls else None
+        if (not calls or last_gain > 0) and rnl < max_leaves_p and explorable():
+            vs.append(violation("fit_stopped_although_a_leaf_could_still_be_explored",
+                                dict(ctx, explorable=explorable(), n_leaves=rnl, last_gain=last_gain), n_clusters=rnc,
+                                K_max=params.get("max_clusters", 3), shadow=False))
         exp_labels, exp_leaf = ref.labels_of(rY, rZ, rnl)
         if not np.array_equal(exp_labels, model.labels_):
             vs.append(violation("labels_differ_from_applied_splits", dict(ctx, labels=model.labels_, expected=exp_labels),
